@@ -112,7 +112,10 @@ def check(run, project):
     # R11 (= C07-NI-1): strict decoding raises at the point where the inconsistency is detected: every handler of a size error re-raises it in strict mode (the raise-versus-wrap mode tests of C07-NI-1): a test that lets strict mode fall into the warn branch turns the error into a warning and accepts the input
     from ..report import RuleView as _RVm
     from . import c07 as _c07
-    _c07.check(_RVm(run, "NI-1", "R11"), project)
+    try:
+        _c07.check(_RVm(run, "NI-1", "R11"), project)
+    except AnalysisError as ex:
+        run.info(f"R11: the mode tests could not be followed ({ex}); not judged here (C07 reports it)")
     run.floor("R1", 20, "region obligations")
     run.floor("R4", 20, "threaded call sites")
 
